@@ -278,7 +278,7 @@ func runC18(c *core.Ctx) {
 	for l := 1; l <= 300; l++ {
 		lens = append(lens, l)
 	}
-	lens = append(lens, 384, 512, 1024, 1025)
+	lens = append(lens, 384, 512, 1024, 1025, 65450, 65453, 65454, 65455, 65534, 65535, 65536)
 	if c.Thorough() {
 		for l := 65380; l <= 65560; l += 4 {
 			lens = append(lens, l)
